@@ -195,6 +195,81 @@ func (c06) Gen(tier string, seed int64, emit0 func([]Ev)) {
 	}
 }
 
+// c06FuzzHistory draws one program map section, one carriage of it and the two parsing calls from r (which may be
+// driven by a fuzzer's bytes): the same event shapes as Gen, one random packetisation instead of a systematic set.
+func c06FuzzHistory(r *rand.Rand) []Ev {
+	pmt := randPMT(r, r.Intn(12), r.Intn(3) == 0)
+	if r.Intn(12) == 0 {
+		pmt = limitPMT(r, r.Intn(3), 900+r.Intn(122))
+	}
+	sec := pmtSection(pmt)
+	ptr := []int{0, 0, 1, 5, 100, 182}[r.Intn(6)]
+	var before [][]byte
+	switch r.Intn(6) {
+	case 0:
+		before = append(before, otherSection(r, r.Intn(20)))
+	case 1:
+		before = append(before, pmtSection(randPMT(r, 1+r.Intn(3), false)))
+	}
+	bev := [][]int{}
+	bad := 1 + ptr
+	for _, b := range before {
+		bev = append(bev, B(b))
+		bad += len(b)
+	}
+	stuff := []int{0, 1, 3, 17}[r.Intn(4)]
+	base := Ev{"abs": absPMTEv(pmt), "ptr": ptr, "before": bev}
+	e1 := Ev{"op": "pmt", "stuff": stuff, "payload": B(c06Payload(ptr, before, sec, stuff))}
+	pl := c06Payload(ptr, before, sec, 0)
+	n := len(pl)
+	// fragments of 1..184 bytes, never cut exactly between a preceding section and the PMT section
+	var frags []int
+	for rest, cum := n, 0; rest > 0; {
+		k := 1 + r.Intn(184)
+		if r.Intn(3) == 0 {
+			k = 184
+		}
+		if k > rest {
+			k = rest
+		}
+		if len(before) > 0 && cum+k == bad && rest > k {
+			if k < 184 {
+				k++
+			} else {
+				k--
+			}
+		}
+		frags = append(frags, k)
+		rest -= k
+		cum += k
+	}
+	pid := 0x30 + r.Intn(0x1000)
+	pk := packetise(r, pl, frags, pid, r.Intn(2) == 0)
+	var all []packet.Packet
+	for _, p := range pk {
+		for k := r.Intn(3); k > 0 && r.Intn(3) == 0; k-- {
+			o := otherPacket(r)
+			if int(o[1]&0x1f)<<8|int(o[2]) == pid {
+				o[2] ^= 1
+			}
+			all = append(all, o)
+		}
+		all = append(all, p)
+	}
+	e2 := Ev{"op": "readpmt", "pid": pid, "packets": pktsEv(all)}
+	for k, v := range base {
+		e1[k], e2[k] = v, v
+	}
+	return []Ev{e1, e2}
+}
+
+// GenRows: the fuzzer's bytes drive c06FuzzHistory (structured fuzzing).
+func (c06) GenRows(rows []Ev, tier string, seed int64, emit func([]Ev)) {
+	for _, row := range rows {
+		emit(c06FuzzHistory(rand.New(&byteSrc{b: GB(row["in"])})))
+	}
+}
+
 func c06Observe(e Ev, pmt psi.PMT, err error) {
 	e["streams"], e["pids"], e["version"], e["cni"] = []Ev{}, []int{}, 0, false
 	switch err {
